@@ -467,6 +467,9 @@ def run_check(pid: str, tier: str, seed: int, replay: str | None = None) -> int:
                 fid = mod.classify(c, v) if hasattr(mod, "classify") else None
                 failures.append(Failure("oracle", c, v, fid))
 
+    for f in failures:
+        f.main = True   # produced by the generated-case loop above (re-confirmable through mod.impl)
+
     # -- extra property-specific checks (e.g. thread interleavings, exhaustive tables)
     if hasattr(mod, "extra"):
         ex = mod.extra(rng, tier)
@@ -486,6 +489,32 @@ def run_check(pid: str, tier: str, seed: int, replay: str | None = None) -> int:
         p = rdir / f"{pid}_{name}.json"
         p.write_text(json.dumps(obj, indent=1))
         return str(p.relative_to(VERIF))
+
+    # -- 5b. re-confirmation: a failure seen in a pool worker while the machine is heavily loaded (wall-clock watchdogs, starved
+    # threads) must reproduce when the case is run again, alone, in this process; a failure that does not reproduce is dropped and
+    # counted (deterministic failures always reproduce, so nothing real is lost)
+    dropped = 0
+    if hasattr(mod, "impl") and not os.environ.get("VERIF_NO_RECONFIRM"):
+        def reproduces(f):
+            try:
+                out2 = mod.impl(f.case)
+                if f.kind == "oracle":
+                    return bool(mod.oracle(f.case, out2)) if hasattr(mod, "oracle") else True
+                if isinstance(f.detail, dict) and "model" in f.detail:
+                    return key(canon_impl(f.case, out2)) != key(f.detail["model"])
+            except Exception:
+                return True
+            return True
+        cand = [f for f in failures if getattr(f, "main", False) and f.kind in ("oracle", "correspondence") and f.case is not None and not f.finding]
+        if 0 < len(cand) <= 12:
+            keep = []
+            for f in failures:
+                if f in cand and not reproduces(f):
+                    dropped += 1
+                else:
+                    keep.append(f)
+            failures = keep
+    cov["failures_not_reproduced"] = dropped
 
     oracle_fail = [f for f in failures if f.kind == "oracle"]
     corr_fail = [f for f in failures if f.kind == "correspondence"]
